@@ -19,12 +19,17 @@ package main
 
 import (
 	"context"
+	"encoding/json"
 	"errors"
 	"fmt"
+	"net/http"
+	"net/http/httptest"
 	"reflect"
 	"strings"
+	"sync"
 	"time"
 
+	apifu "github.com/ccbrown/api-fu"
 	"github.com/ccbrown/api-fu/graphql"
 	"github.com/ccbrown/api-fu/graphql/executor"
 
@@ -76,6 +81,7 @@ type fval struct {
 	ft   *ftype
 	tag  int // -1: synchronous
 	err  bool
+	tn   bool // the selection is __typename: no resolver
 	v    *val
 	path []interface{}
 }
@@ -110,6 +116,9 @@ func (v *val) walk(f func(*fval)) {
 		}
 	case vObj:
 		for _, fv := range v.fields {
+			if fv.tn {
+				continue
+			}
 			f(fv)
 			if !fv.err {
 				fv.v.walk(f)
@@ -127,7 +136,7 @@ func (v *val) setPaths(prefix []interface{}) {
 	case vObj:
 		for _, fv := range v.fields {
 			fv.path = append(append([]interface{}{}, prefix...), fv.ft.key)
-			if !fv.err {
+			if !fv.err && !fv.tn {
 				fv.v.setPaths(fv.path)
 			}
 		}
@@ -172,6 +181,10 @@ func (v *val) sexp() sexp.Node {
 func (v *val) selSexp() []sexp.Node {
 	var out []sexp.Node
 	for _, fv := range v.fields {
+		if fv.tn {
+			out = append(out, sexp.L(sexp.Str(fv.ft.key), sexp.Sym("typename")))
+			continue
+		}
 		tag := sexp.Sym("none")
 		if fv.tag >= 0 {
 			tag = sexp.Int(fv.tag)
@@ -196,9 +209,13 @@ type promise struct {
 }
 
 type builder struct {
-	n      int
-	events *[]sexp.Node
-	proms  *[]*promise
+	n       int
+	events  *[]sexp.Node
+	proms   *[]*promise
+	counter *int // the state the resolvers share: read, then incremented, by every side effect
+	api     bool // resolve asynchronous fields with apifu.Go instead of a harness promise
+	mu      *sync.Mutex
+	root    *val // api mode: the object value of the root fields (apifu passes no InitialValue)
 }
 
 func (b *builder) gqlType(t *typ) graphql.Type {
@@ -226,11 +243,18 @@ func (b *builder) objType(name string, t *typ) *graphql.ObjectType {
 	o := &graphql.ObjectType{Name: name, Fields: map[string]*graphql.FieldDefinition{}}
 	for i, ft := range t.fields {
 		i := i
+		if ft.name == "__typename" {
+			continue
+		}
 		o.Fields[ft.name] = &graphql.FieldDefinition{
 			Type: b.gqlType(ft.t),
 			Resolve: func(ctx graphql.FieldContext) (interface{}, error) {
+				if b.api {
+					return b.resolveAPI(ctx, t, i)
+				}
 				fv := ctx.Object.(*val).fields[i]
-				*b.events = append(*b.events, sexp.T("start", pathSexp(fv.path)))
+				*b.events = append(*b.events, sexp.T("start", pathSexp(fv.path), sexp.Int(*b.counter)))
+				*b.counter++
 				if fv.tag >= 0 {
 					p := &promise{fv: fv, ch: make(graphql.ResolvePromise, 1)}
 					*b.proms = append(*b.proms, p)
@@ -246,23 +270,69 @@ func (b *builder) objType(name string, t *typ) *graphql.ObjectType {
 	return o
 }
 
+// resolveAPI is the resolver of the apifu route: asynchronous fields run in an apifu.Go goroutine
+// whose body logs the "fulfil" side effect (the asynchronous resolver finishing) before it returns.
+func (b *builder) resolveAPI(ctx graphql.FieldContext, t *typ, i int) (interface{}, error) {
+	obj, _ := ctx.Object.(*val)
+	if obj == nil || obj.t != t {
+		obj = b.root
+	}
+	fv := obj.fields[i]
+	b.mu.Lock()
+	*b.events = append(*b.events, sexp.T("start", pathSexp(fv.path), sexp.Int(*b.counter)))
+	*b.counter++
+	b.mu.Unlock()
+	answer := func() (interface{}, error) {
+		if fv.err {
+			return nil, errors.New("resolver failed")
+		}
+		return fv.v.goValue(), nil
+	}
+	if fv.tag >= 0 {
+		return apifu.Go(ctx.Context, func() (interface{}, error) {
+			b.mu.Lock()
+			*b.events = append(*b.events, sexp.T("fulfil", pathSexp(fv.path), sexp.Int(*b.counter)))
+			*b.counter++
+			b.mu.Unlock()
+			return answer()
+		}), nil
+	}
+	return answer()
+}
+
 func selectionText(ft *ftype, sb *strings.Builder) {
+	selectionTextPart(ft, sb, 0, -1)
+}
+
+// selectionTextPart writes the selection with the sub-selections lo..hi-1 only (hi < 0: all).
+func selectionTextPart(ft *ftype, sb *strings.Builder, lo, hi int) {
 	if ft.key != ft.name {
 		sb.WriteString(ft.key + ":")
 	}
 	sb.WriteString(ft.name)
-	subText(ft.t, sb)
+	subText(ft.t, sb, lo, hi)
 }
 
-func subText(t *typ, sb *strings.Builder) {
+func subFields(t *typ) []*ftype {
 	for t.kind == kList {
 		t = t.item
 	}
 	if t.kind != kObj {
+		return nil
+	}
+	return t.fields
+}
+
+func subText(t *typ, sb *strings.Builder, lo, hi int) {
+	fs := subFields(t)
+	if fs == nil {
 		return
 	}
+	if hi < 0 {
+		hi = len(fs)
+	}
 	sb.WriteString("{")
-	for i, ft := range t.fields {
+	for i, ft := range fs[lo:hi] {
 		if i > 0 {
 			sb.WriteString(" ")
 		}
@@ -274,7 +344,10 @@ func subText(t *typ, sb *strings.Builder) {
 // documentText writes the operation.  shape[i] says how the i-th root selection is written:
 // 0 plain, 1 opens an inline fragment "... on <Root> {" that runs until the next selection whose
 // shape is not 3, 2 likewise a named fragment, 3 continues the fragment opened before it.
-func documentText(rootT *typ, mutation bool, rootName string, shape []int) string {
+// dups[i]: 0 the i-th root selection is written once; 1 it is written again, identically, after all
+// root selections; 2 its sub-selection is split: the first occurrence carries the first half, a second
+// occurrence after all root selections the rest (only for roots with at least two sub-selections).
+func documentText(rootT *typ, mutation bool, rootName string, shape []int, dups []int) string {
 	var sb, frags strings.Builder
 	if mutation {
 		sb.WriteString("mutation ")
@@ -312,9 +385,25 @@ func documentText(rootT *typ, mutation bool, rootName string, shape []int) strin
 			}
 		}
 		cur.WriteString(" ")
-		selectionText(ft, cur)
+		if i < len(dups) && dups[i] == 2 && len(subFields(ft.t)) >= 2 {
+			selectionTextPart(ft, cur, 0, len(subFields(ft.t))/2)
+		} else {
+			selectionText(ft, cur)
+		}
 	}
 	closeFrag()
+	for i, ft := range rootT.fields {
+		if i >= len(dups) || dups[i] == 0 {
+			continue
+		}
+		sb.WriteString(" ")
+		if dups[i] == 2 && len(subFields(ft.t)) >= 2 {
+			n := len(subFields(ft.t))
+			selectionTextPart(ft, &sb, n/2, n)
+		} else {
+			selectionText(ft, &sb)
+		}
+	}
 	sb.WriteString("}")
 	return sb.String() + frags.String()
 }
@@ -343,10 +432,17 @@ func resetGql(t *typ) {
 	}
 }
 
-func run(root *val, mutation bool, ranks []int, shape []int) observation {
+type docOpts struct {
+	shape  []int
+	dups   []int
+	noIdle bool
+}
+
+func run(root *val, mutation bool, ranks []int, opts docOpts) observation {
 	var events []sexp.Node
 	var proms []*promise
-	b := &builder{events: &events, proms: &proms}
+	counter := 0
+	b := &builder{events: &events, proms: &proms, counter: &counter}
 	resetGql(root.t)
 	def := &graphql.SchemaDefinition{}
 	dummy := &graphql.ObjectType{Name: "Q0", Fields: map[string]*graphql.FieldDefinition{
@@ -360,7 +456,7 @@ func run(root *val, mutation bool, ranks []int, shape []int) observation {
 	} else {
 		def.Query = b.objType(rootName, root.t)
 	}
-	doc := documentText(root.t, mutation, rootName, shape)
+	doc := documentText(root.t, mutation, rootName, opts.shape, opts.dups)
 	schema, err := graphql.NewSchema(def)
 	if err != nil {
 		panic(fmt.Sprintf("schema: %v (%s)", err, doc))
@@ -392,7 +488,8 @@ func run(root *val, mutation bool, ranks []int, shape []int) observation {
 		for _, p := range proms {
 			if !p.done && rank(p) == min {
 				p.done = true
-				events = append(events, sexp.T("fulfil", pathSexp(p.fv.path)))
+				events = append(events, sexp.T("fulfil", pathSexp(p.fv.path), sexp.Int(counter)))
+				counter++
 				if p.fv.err {
 					p.ch <- graphql.ResolveResult{Error: errors.New("promise failed")}
 				} else {
@@ -417,13 +514,17 @@ func run(root *val, mutation bool, ranks []int, shape []int) observation {
 				}
 			}
 		}()
-		r := graphql.Execute(&graphql.Request{
+		req := &graphql.Request{
 			Context:      context.Background(),
 			Schema:       schema,
 			Query:        doc,
 			InitialValue: root,
 			IdleHandler:  idle,
-		})
+		}
+		if opts.noIdle {
+			req.IdleHandler = nil
+		}
+		r := graphql.Execute(req)
 		done <- outT{status: "ok", resp: r}
 	}()
 	select {
@@ -435,6 +536,109 @@ func run(root *val, mutation bool, ranks []int, shape []int) observation {
 	obs.proms = append([]*promise(nil), proms...)
 	obs.events = append([]sexp.Node(nil), events...)
 	return obs
+}
+
+// runAPI executes the mutation through apifu.API.ServeGraphQL: root fields registered with
+// Config.AddMutation, asynchronous fields resolved by apifu.Go goroutines, the request's own idle
+// handler.  The order in which goroutines finish is not under the harness's control.
+func runAPI(root *val, opts docOpts) sexp.Node {
+	var events []sexp.Node
+	var proms []*promise
+	counter := 0
+	var mu sync.Mutex
+	b := &builder{events: &events, proms: &proms, counter: &counter, api: true, mu: &mu, root: root}
+	resetGql(root.t)
+	var cfg apifu.Config
+	cfg.AddQueryField("z", &graphql.FieldDefinition{Type: graphql.IntType, Resolve: func(graphql.FieldContext) (interface{}, error) { return 0, nil }})
+	mt := b.objType("MutationProbe", root.t)
+	for name, def := range mt.Fields {
+		cfg.AddMutation(name, def)
+	}
+	api, err := apifu.NewAPI(&cfg)
+	if err != nil {
+		panic(fmt.Sprintf("NewAPI: %v", err))
+	}
+	doc := documentText(root.t, true, "Mutation", opts.shape, opts.dups)
+	type outT struct {
+		status string
+		body   []byte
+	}
+	done := make(chan outT, 1)
+	go func() {
+		defer func() {
+			if e := recover(); e != nil {
+				done <- outT{status: "panic"}
+			}
+		}()
+		w := httptest.NewRecorder()
+		r, _ := http.NewRequest("POST", "", strings.NewReader(doc))
+		r.Header.Set("Content-Type", "application/graphql")
+		api.ServeGraphQL(w, r)
+		done <- outT{status: "ok", body: w.Body.Bytes()}
+	}()
+	var o outT
+	select {
+	case o = <-done:
+	case <-time.After(10 * time.Second):
+		o = outT{status: "hang"}
+	}
+	out := []sexp.Node{sexp.T("status", sexp.Sym(o.status))}
+	if o.status == "ok" {
+		out = append(out, sexp.T("data", apiDataSexp(o.body)))
+	}
+	mu.Lock()
+	evs := append([]sexp.Node(nil), events...)
+	mu.Unlock()
+	out = append(out, sexp.T("rounds", sexp.Int(0)), sexp.T("events", evs...))
+	return sexp.T("obs", out...)
+}
+
+// apiDataSexp reads the root keys of "data" in response order with the kind of each value.
+func apiDataSexp(body []byte) sexp.Node {
+	var top struct {
+		Data json.RawMessage `json:"data"`
+	}
+	if json.Unmarshal(body, &top) != nil || len(top.Data) == 0 || string(top.Data) == "null" {
+		return sexp.Sym("null")
+	}
+	dec := json.NewDecoder(strings.NewReader(string(top.Data)))
+	if tok, err := dec.Token(); err != nil || tok != json.Delim('{') {
+		return sexp.Sym("unknown")
+	}
+	var items []sexp.Node
+	for dec.More() {
+		k, _ := dec.Token()
+		var raw json.RawMessage
+		if dec.Decode(&raw) != nil {
+			return sexp.Sym("unknown")
+		}
+		var kind sexp.Node
+		switch {
+		case string(raw) == "null":
+			kind = sexp.Sym("null")
+		case raw[0] == '{':
+			kind = sexp.Sym("obj")
+		case raw[0] == '[':
+			kind = sexp.Sym("list")
+		case raw[0] == '"':
+			kind = sexp.Sym("str")
+		default:
+			var n int64
+			if json.Unmarshal(raw, &n) != nil {
+				return sexp.Sym("unknown")
+			}
+			kind = sexp.T("int", sexp.Int64(n))
+		}
+		items = append(items, sexp.L(sexp.Str(k.(string)), kind))
+	}
+	return sexp.L(items...)
+}
+
+func apiCaseSexp(root *val, opts docOpts) sexp.Node {
+	root.setPaths(nil)
+	o := runAPI(root, opts)
+	return sexp.T("case", sexp.T("mode", sexp.Sym("mutation")), sexp.T("plan", sexp.L(root.selSexp()...)),
+		sexp.T("ranks", sexp.L()), sexp.T("idle", sexp.Bool(true)), sexp.T("feat", sexp.Sym("apifu-go")), o)
 }
 
 // kindSexp abstracts a root value to what the model tracks: null / (int z) / list / obj.
@@ -450,6 +654,9 @@ func kindSexp(v interface{}) sexp.Node {
 		return sexp.Sym("obj")
 	case []interface{}:
 		return sexp.Sym("list")
+	}
+	if _, ok := v.(string); ok {
+		return sexp.Sym("str")
 	}
 	rv := reflect.ValueOf(v)
 	switch rv.Kind() {
@@ -491,9 +698,9 @@ func (o observation) sexp() sexp.Node {
 	return sexp.T("obs", out...)
 }
 
-func caseSexp(root *val, mutation bool, ranks []int, shape []int) sexp.Node {
+func caseSexp(root *val, mutation bool, ranks []int, opts docOpts) sexp.Node {
 	root.setPaths(nil)
-	o := run(root, mutation, ranks, shape)
+	o := run(root, mutation, ranks, opts)
 	mode := "query"
 	if mutation {
 		mode = "mutation"
@@ -502,14 +709,29 @@ func caseSexp(root *val, mutation bool, ranks []int, shape []int) sexp.Node {
 	for _, r := range ranks {
 		rk = append(rk, sexp.Int(r))
 	}
+	var feat []sexp.Node
+	for _, sh := range opts.shape {
+		if sh != 0 {
+			feat = append(feat, sexp.Sym("root-in-fragments"))
+			break
+		}
+	}
+	d1, d2 := false, false
+	for i, d := range opts.dups {
+		if d == 1 || (d == 2 && i < len(root.t.fields) && len(subFields(root.t.fields[i].t)) < 2) {
+			d1 = true
+		} else if d == 2 {
+			d2 = true
+		}
+	}
+	if d1 {
+		feat = append(feat, sexp.Sym("duplicate-root-key"))
+	}
+	if d2 {
+		feat = append(feat, sexp.Sym("split-root-selection"))
+	}
 	return sexp.T("case", sexp.T("mode", sexp.Sym(mode)), sexp.T("plan", sexp.L(root.selSexp()...)),
-		sexp.T("ranks", sexp.L(rk...)), o.sexp())
-}
-
-func emit(h *hx.H, root *val, mutation bool, ranks []int, shape []int) {
-	h.Case(func(_ *rng.R) sexp.Node {
-		return caseSexp(root, mutation, ranks, shape)
-	})
+		sexp.T("ranks", sexp.L(rk...)), sexp.T("idle", sexp.Bool(!opts.noIdle)), sexp.T("feat", feat...), o.sexp())
 }
 
 // ---------------------------------------------------------------------------------------------
@@ -594,6 +816,10 @@ func orderedPartitions(n int, f func(ranks []int)) {
 // allSchedules emits, for one plan tree, every async subset x every schedule (when the subset has
 // at most maxProm promises; otherwise a few random rank vectors).
 func allSchedules(h *hx.H, root *val, mutation bool, maxProm int, r *rng.R) {
+	allSchedulesOpts(h, root, mutation, maxProm, r, docOpts{})
+}
+
+func allSchedulesOpts(h *hx.H, root *val, mutation bool, maxProm int, r *rng.R, opts docOpts) {
 	n := countFields(root)
 	for mask := 0; mask < 1<<uint(n); mask++ {
 		mask := mask
@@ -602,7 +828,7 @@ func allSchedules(h *hx.H, root *val, mutation bool, maxProm int, r *rng.R) {
 			orderedPartitions(k, func(ranks []int) {
 				h.Case(func(_ *rng.R) sexp.Node {
 					assignTags(root, func(i int) bool { return mask>>uint(i)&1 == 1 })
-					return caseSexp(root, mutation, ranks, nil)
+					return caseSexp(root, mutation, ranks, opts)
 				})
 			})
 		} else {
@@ -614,7 +840,7 @@ func allSchedules(h *hx.H, root *val, mutation bool, maxProm int, r *rng.R) {
 				}
 				h.Case(func(_ *rng.R) sexp.Node {
 					assignTags(root, func(i int) bool { return mask>>uint(i)&1 == 1 })
-					return caseSexp(root, mutation, ranks, nil)
+					return caseSexp(root, mutation, ranks, opts)
 				})
 			}
 		}
@@ -706,6 +932,31 @@ func structured(h *hx.H, mutation bool, maxProm int, r *rng.R) {
 	}
 }
 
+// extras: the document shapes and request variants beside the plain ones, every async subset x schedule
+func extras(h *hx.H, maxProm int, r *rng.R) {
+	mk := func(c0 int) (*val, *ftype, *ftype) {
+		x := fld("x", leafT(true))
+		y := fld("y", leafT(false))
+		a := fld("a", objT(false, x, y))
+		b := fld("b", leafT(false))
+		return obj(objT(false, a, b), fv(a, obj(a.t, leafField(x, c0, 1), leafField(y, 0, 2))), leafField(b, 0, 3)), a, b
+	}
+	for _, c0 := range []int{0, 2} {
+		// mutation { a{x} b a{y} b }: a's selection split, b written twice
+		root, _, _ := mk(c0)
+		allSchedulesOpts(h, root, true, maxProm, r, docOpts{dups: []int{2, 1}})
+		// no idle handler
+		root, _, _ = mk(c0)
+		allSchedulesOpts(h, root, true, maxProm, r, docOpts{noIdle: true})
+		// mutation { a{x y} t: __typename b }
+		root, a, b := mk(c0)
+		tn := &ftype{key: "t", name: "__typename", t: leafT(true)}
+		root.t = objT(false, a, tn, b)
+		root.fields = []*fval{root.fields[0], {ft: tn, tn: true}, root.fields[1]}
+		allSchedulesOpts(h, root, true, maxProm, r, docOpts{})
+	}
+}
+
 // ---- random trees ----
 
 type gen struct {
@@ -724,6 +975,9 @@ func (g *gen) typ(depth int) *typ {
 	default:
 		n := g.r.Range(1, 3)
 		var fs []*ftype
+		if g.r.Chance(1, 8) {
+			fs = append(fs, &ftype{key: "tn", name: "__typename", t: leafT(true)})
+		}
 		for i := 0; i < n; i++ {
 			g.budget--
 			name := fmt.Sprintf("f%d", i)
@@ -759,6 +1013,10 @@ func (g *gen) val(t *typ, failDen int) *val {
 	}
 	v := &val{kind: vObj, t: t}
 	for _, ft := range t.fields {
+		if ft.name == "__typename" {
+			v.fields = append(v.fields, &fval{ft: ft, tn: true})
+			continue
+		}
 		if g.r.Intn(failDen) == 0 {
 			v.fields = append(v.fields, fe(ft))
 		} else {
@@ -778,10 +1036,17 @@ func randomRoot(r *rng.R, nroots, depth, budget, failDen int) *val {
 			key = fmt.Sprintf("q%d", i)
 		}
 		fs = append(fs, &ftype{key: key, name: name, t: g.typ(depth)})
+		if r.Chance(1, 10) {
+			fs = append(fs, &ftype{key: fmt.Sprintf("t%d", i), name: "__typename", t: leafT(true)})
+		}
 	}
 	rt := objT(false, fs...)
 	root := &val{kind: vObj, t: rt}
 	for _, ft := range fs {
+		if ft.name == "__typename" {
+			root.fields = append(root.fields, &fval{ft: ft, tn: true})
+			continue
+		}
 		if r.Intn(failDen) == 0 {
 			root.fields = append(root.fields, fe(ft))
 		} else {
@@ -824,14 +1089,23 @@ func randomCase(r *rng.R, mutation bool, nroots int) sexp.Node {
 			}
 		}
 	}
-	// how the root selections are spread over fragments
-	shape := make([]int, nroots)
+	// how the root selections are spread over fragments, which of them are written twice
+	nsel := len(root.t.fields)
+	opts := docOpts{shape: make([]int, nsel), dups: make([]int, nsel)}
 	if r.Chance(1, 2) {
-		for i := range shape {
-			shape[i] = r.Intn(4)
+		for i := range opts.shape {
+			opts.shape[i] = r.Intn(4)
 		}
 	}
-	return caseSexp(root, mutation, ranks, shape)
+	if r.Chance(1, 3) {
+		for i := range opts.dups {
+			if r.Chance(1, 2) {
+				opts.dups[i] = r.Range(1, 2)
+			}
+		}
+	}
+	opts.noIdle = r.Chance(1, 25)
+	return caseSexp(root, mutation, ranks, opts)
 }
 
 // ---------------------------------------------------------------------------------------------
@@ -853,6 +1127,7 @@ func main() {
 		}
 		// 2. roots with nested asynchronous subtrees: every async subset x schedule
 		structured(h, true, maxProm, r)
+		extras(h, maxProm, r)
 		if h.Thorough() {
 			structured(h, false, maxProm, r)
 		}
@@ -864,6 +1139,23 @@ func main() {
 		for i := 0; i < n; i++ {
 			h.Case(func(r *rng.R) sexp.Node {
 				return randomCase(r, !r.Chance(1, 6), r.Range(2, 5))
+			})
+		}
+		// 4. mutations through apifu.API.ServeGraphQL with apifu.Go under the root fields
+		na := 1500
+		if h.Thorough() {
+			na = 30000
+		}
+		for i := 0; i < na; i++ {
+			h.Case(func(r *rng.R) sexp.Node {
+				failDen := 14
+				if r.Chance(1, 2) {
+					failDen = 1000
+				}
+				root := randomRoot(r, r.Range(2, 4), r.Range(1, 3), r.Range(3, 10), failDen)
+				density := r.Range(1, 4)
+				assignTags(root, func(int) bool { return r.Intn(4) < density })
+				return apiCaseSexp(root, docOpts{})
 			})
 		}
 	})
